@@ -1085,3 +1085,15 @@ Proof.
   rewrite (map_nth_error g k rng (d := n - 1 + r)); [reflexivity|].
   rewrite (nth_error_nth' _ 0 Hk). f_equal. subst k rng. rewrite zrange_nth1 by lia. lia.
 Qed.
+
+(* the cutoff has moved k observations past the end of the wrapped model's data (no refit): the
+   forecasts are the wrapped model's values at the ABSOLUTE positions cutoff + r, counted from the
+   start of the data it was fitted on - not its k-steps-earlier forecasts relabelled *)
+Lemma adapter_at_is_adapter n0 k dense fh :
+  adapter_predict_at n0 k dense fh = adapter_predict (n0 + k) dense fh.
+Proof. reflexivity. Qed.
+
+Lemma adapter_at_selects n0 k (g : Z -> oq) fh : sorted_lt fh -> fh <> [] ->
+  adapter_predict_at n0 k (map g (zrange (n0 + k - 1 + zfirst fh) (n0 + k - 1 + zlast fh + 1) 1)) fh
+  = Ok (map (fun r => g (n0 + k - 1 + r)) fh).
+Proof. intros Hs Hne. rewrite adapter_at_is_adapter. exact (adapter_selects (n0 + k) g fh Hs Hne). Qed.
